@@ -83,6 +83,7 @@ func runC03(c *core.Ctx) {
 	c.RuleDoc("R03.4", "directories are deleted only when empty")
 	c.RuleDoc("R03.6", "every prefix test between names in keyvalue, mem, mount and the helpers is on a path-element boundary")
 	c.RuleDoc("R03.7", "a mode update keeps the record's type bits")
+	c.RuleDoc("R03.12", "a mount point is a valid name other than the root whose directory exists (= R06.4)")
 	c.RuleDoc("R03.11", "the generic Sub view never removes its own root")
 	c.RuleDoc("R03.10", "the generic Sub view joins base and name with path.Join, so every entry its root lists can be Stat'ed and opened (= R08.10)")
 	c.RuleDoc("R03.9", "the mount file system does not move an ancestor of a mount point")
@@ -105,6 +106,9 @@ func runC03(c *core.Ctx) {
 		// R03.10: the generic Sub view maps a listed name to base/name with path.Join — "./name" (base ".") cannot be Stat'ed
 		r08SubViewJoins(c, p, "R03.10")
 		r03SubRootKept(c, p)
+		// R03.12 (= R06.4): a mount is added only at a valid name other than "." whose directory exists — a mount at
+		// "." captures the root directory alone: its listing shows entries that cannot be Stat'ed
+		c.WithAlias(map[string]string{"R06.4": "R03.12"}, func() { r06AddMount(c, p) })
 	}
 	c.Floor("R03.1", 5)
 	c.Floor("R03.2", 3)
@@ -117,6 +121,7 @@ func runC03(c *core.Ctx) {
 	c.Floor("R03.9", 1)
 	c.Floor("R03.10", 2)
 	c.Floor("R03.11", 2)
+	c.Floor("R03.12", 1)
 }
 
 // pathDirOf: v is path.Dir(x); returns x.
